@@ -81,14 +81,82 @@ def representative_values(fn, src):
     vals.add(min(consts | {0}) - 7919)
     return sorted(vals)
 
-def simulate(fn, call_ins, v, stop_calls=(), max_steps=4000):
-    """follow control flow from just after call_ins assuming its result equals v; branches that test the result
-    (or values derived from it through casts/phis) against constants are evaluated, others are explored both ways.
+def simulate(fn, call_ins, v, stop_calls=(), max_steps=4000, seed=None, start=None, watch=None):
+    """follow control flow from just after call_ins (or from instruction `start`) assuming its result equals v; branches whose
+    condition is determined by the known values (also through or / and / select / xor and phis) are evaluated, all others
+    explored both ways.  `seed` adds SSA values known from dominating equalities.
     -> list of outcomes: ('ret', value or None, path_blocks) | ('reexec', None, blocks) | ('event', ins, blocks)"""
     outcomes = []
     seen = set()
-    stack = [(call_ins.bb, call_ins.idx + 1, {call_ins.res: v}, (call_ins.bb.label,))]
+    env0 = dict(seed or {})
+    if call_ins is not None and call_ins.res:
+        env0[call_ins.res] = v
+    s_ins = start or call_ins
+    stack = [(s_ins.bb, s_ins.idx + (0 if start is not None else 1), env0, (s_ins.bb.label,))]
     steps = 0
+    def val(o, env):
+        if o in env:
+            return env[o]
+        if isinstance(o, str) and INT.match(o):
+            return int(o)
+        if o == 'true':
+            return 1
+        if o == 'false':
+            return 0
+        return None
+    def cond(o, env, depth=0):
+        """three-valued truth of an i1 value"""
+        x = val(o, env)
+        if x is not None:
+            return bool(x)
+        d = fn.defs.get(o)
+        if d is None or depth > 8:
+            return None
+        if d.op == 'icmp':
+            a, b = val(d.ops[0], env), val(d.ops[1], env)
+            if a is None:
+                a = arith(d.ops[0], env)
+            if b is None:
+                b = arith(d.ops[1], env)
+            if a is not None and b is not None:
+                w = int(d.ty[1:]) if d.ty and d.ty[1:].isdigit() else 64
+                return _eval_icmp(d.pred, a, b, w)
+            return None
+        if d.op == 'xor' and 'true' in d.ops:
+            r = cond(d.ops[0] if d.ops[1] == 'true' else d.ops[1], env, depth + 1)
+            return None if r is None else (not r)
+        if d.op in ('or', 'and') and d.ty == 'i1':
+            a, b = cond(d.ops[0], env, depth + 1), cond(d.ops[1], env, depth + 1)
+            if d.op == 'or':
+                return True if (a is True or b is True) else (False if (a is False and b is False) else None)
+            return False if (a is False or b is False) else (True if (a is True and b is True) else None)
+        if d.op == 'select' and d.ty == 'i1':
+            c = cond(d.ops[0], env, depth + 1)
+            if c is None:
+                a, b = cond(d.ops[1], env, depth + 1), cond(d.ops[2], env, depth + 1)
+                return a if (a is not None and a == b) else None
+            return cond(d.ops[1] if c else d.ops[2], env, depth + 1)
+        if d.op in ('zext', 'trunc', 'sext'):
+            return cond(d.ops[0], env, depth + 1)
+        return None
+    def arith(o, env, depth=0):
+        x = val(o, env)
+        if x is not None or depth > 6:
+            return x
+        d = fn.defs.get(o)
+        if d is None:
+            return None
+        if d.op in ('sext', 'zext', 'trunc'):
+            return arith(d.ops[0], env, depth + 1)
+        if d.op == 'sub' and d.ops[0] == '0':
+            r = arith(d.ops[1], env, depth + 1)
+            return None if r is None else -r
+        if d.op == 'select':
+            c = cond(d.ops[0], env, depth + 1)
+            if c is None:
+                return None
+            return arith(d.ops[1] if c else d.ops[2], env, depth + 1)
+        return None
     while stack:
         b, i0, env, trail = stack.pop()
         steps += 1
@@ -97,44 +165,32 @@ def simulate(fn, call_ins, v, stop_calls=(), max_steps=4000):
         env = dict(env)
         hit = None
         for ins in b.insts[i0:]:
-            if ins is call_ins:
+            if call_ins is not None and ins is call_ins and not (start is not None and steps == 1):
                 hit = ('reexec', None, trail); break
-            if ins.op in ('sext', 'zext', 'trunc') and ins.ops[0] in env:
-                env[ins.res] = env[ins.ops[0]]
-            elif ins.op == 'sub' and ins.ops[0] == '0' and ins.ops[1] in env:
-                env[ins.res] = -env[ins.ops[1]]
-            elif ins.op == 'call' and ins.callee in stop_calls:
+            if ins.res and ins.op in ('sext', 'zext', 'trunc', 'select') or (ins.op == 'sub' and ins.res):
+                x = arith(ins.res, env)
+                if x is not None:
+                    env[ins.res] = x
+            if ins.op == 'call' and ins.callee in stop_calls:
                 outcomes.append(('event', ins, trail))
             elif ins.op == 'store' and 'store' in stop_calls:
                 outcomes.append(('event', ins, trail))
         if hit:
             outcomes.append(hit); continue
         t = b.insts[-1]
-        def val(o):
-            if o in env:
-                return env[o]
-            if INT.match(o):
-                return int(o)
-            return None
         if t.op == 'ret':
-            outcomes.append(('ret', val(t.ops[0]) if t.ops else None, trail)); continue
+            outcomes.append(('ret', arith(t.ops[0], env) if t.ops else None, trail)); continue
         if t.op == 'unreachable':
             continue
         nexts = []
         if t.op == 'br' and len(t.targets) == 2 and t.ops:
-            c = fn.defs.get(t.ops[0])
-            decided = None
-            if c is not None and c.op == 'icmp':
-                a, bb_ = val(c.ops[0]), val(c.ops[1])
-                if a is not None and bb_ is not None:
-                    w = int(c.ty[1:]) if c.ty and c.ty[1:].isdigit() else 32
-                    decided = _eval_icmp(c.pred, a, bb_, w)
+            decided = cond(t.ops[0], env)
             if decided is None:
                 nexts = [t.targets[0], t.targets[1]]
             else:
                 nexts = [t.targets[0] if decided else t.targets[1]]
         elif t.op == 'switch':
-            sv = val(t.ops[0])
+            sv = arith(t.ops[0], env)
             if sv is None:
                 nexts = list(dict.fromkeys(t.targets))
             else:
@@ -144,17 +200,32 @@ def simulate(fn, call_ins, v, stop_calls=(), max_steps=4000):
             nexts = list(t.targets)
         for lab in nexts:
             nb = fn.blocks[lab]
+            if watch is not None and nb is watch[0]:
+                # value carried into the watched phi along this edge; do not continue past it
+                wphi = fn.defs.get(watch[1])
+                wv = None
+                for pv, pl in wphi.incoming:
+                    if pl == b.label:
+                        wv = arith(pv, env)
+                outcomes.append(('watch', wv, trail))
+                continue
             nenv = dict(env)
+            upd = {}
             for ins in nb.insts:
                 if ins.op != 'phi':
                     break
                 for pv, pl in ins.incoming:
                     if pl == b.label:
-                        x = val(pv)
-                        if x is not None:
-                            nenv[ins.res] = x
-                        else:
-                            nenv.pop(ins.res, None)
+                        x = arith(pv, env)
+                        if x is None and ins.ty == 'i1':
+                            c = cond(pv, env)
+                            x = None if c is None else int(c)
+                        upd[ins.res] = x
+            for k_, x in upd.items():
+                if x is not None:
+                    nenv[k_] = x
+                else:
+                    nenv.pop(k_, None)
             key = (nb.label, tuple(sorted((k, vv) for k, vv in nenv.items())))
             if key in seen:
                 continue
